@@ -276,3 +276,128 @@ pub fn replay_colattrs(path: &str, out_dir: &str) -> Result<Value, String> {
     mism.flush().ok();
     Ok(json!({"cases": n_beh, "checks": n_steps, "mismatches": n_mism, "distinct_nontrivial": nontrivial.len(), "samples": samples, "no_verdict": bad_init}))
 }
+
+// ------------------------------------------------------------------------------------------
+// C30 styles: behaviour = [{a: {op: assign, target, style}, expect: {cellA1, cellB2, row3, colD, probeRow, probeCol, probeCross}}]
+
+fn style_of_spec(v: &Value) -> Option<ironcalc_base::types::Style> {
+    use ironcalc_base::types::{Alignment, BorderItem, BorderStyle, Color, HorizontalAlignment, Style};
+    if v["fmt"] == "unset" {
+        return None;
+    }
+    let mut s = Style::default();
+    s.num_fmt = v["fmt"].as_str().unwrap_or("general").to_string();
+    match v["font"].as_str().unwrap_or("default") {
+        "bold" => s.font.b = true,
+        "italic14" => {
+            s.font.i = true;
+            s.font.sz = 14;
+        }
+        "red" => s.font.color = Color::Rgb("#FF0000".to_string()),
+        "theme4" => s.font.color = Color::Theme(4, 0.4),
+        _ => {}
+    }
+    if v["fill"] == "yellow" {
+        s.fill.color = Color::Rgb("#FFFF00".to_string());
+    }
+    let item = |st: BorderStyle| Some(BorderItem { style: st, color: Color::Rgb("#000000".to_string()) });
+    match v["border"].as_str().unwrap_or("none") {
+        "thintop" => s.border.top = item(BorderStyle::Thin),
+        "mediumall" => {
+            s.border.top = item(BorderStyle::Medium);
+            s.border.bottom = item(BorderStyle::Medium);
+            s.border.left = item(BorderStyle::Medium);
+            s.border.right = item(BorderStyle::Medium);
+        }
+        _ => {}
+    }
+    match v["align"].as_str().unwrap_or("none") {
+        "center" => s.alignment = Some(Alignment { horizontal: HorizontalAlignment::Center, ..Default::default() }),
+        "wrap" => s.alignment = Some(Alignment { wrap_text: true, ..Default::default() }),
+        "alldefault" => s.alignment = Some(Alignment::default()),
+        _ => {}
+    }
+    s.quote_prefix = v["qp"].as_bool().unwrap_or(false);
+    Some(s)
+}
+
+pub fn replay_styles(path: &str, out_dir: &str) -> Result<Value, String> {
+    use ironcalc_base::Model;
+    std::fs::create_dir_all(out_dir).map_err(|e| e.to_string())?;
+    let f = std::fs::File::open(path).map_err(|e| e.to_string())?;
+    let mut mism = std::io::BufWriter::new(std::fs::File::create(format!("{}/mismatches.ndjson", out_dir)).map_err(|e| e.to_string())?);
+    let (mut n_beh, mut n_steps, mut n_mism) = (0usize, 0usize, 0usize);
+    let mut nontrivial: BTreeSet<String> = Default::default();
+    let mut samples: Vec<Value> = vec![];
+    let read = |m: &Model| -> Vec<(&'static str, Option<ironcalc_base::types::Style>)> {
+        vec![
+            ("cellA1", m.get_style_for_cell(0, 1, 1).ok()),
+            ("cellB2", m.get_style_for_cell(0, 2, 2).ok()),
+            ("row3", crate::project::effective_row_style(m, 0, 3)),
+            ("colD", m.get_column_style(0, 4).ok().flatten()),
+            ("probeRow", m.get_style_for_cell(0, 3, 7).ok()),
+            ("probeCol", m.get_style_for_cell(0, 9, 4).ok()),
+            ("probeCross", m.get_style_for_cell(0, 3, 4).ok()),
+        ]
+    };
+    for line in std::io::BufReader::new(f).lines() {
+        let line = line.map_err(|e| e.to_string())?;
+        let b: Value = match serde_json::from_str(&line) {
+            Ok(v) => v,
+            Err(_) => continue,
+        };
+        n_beh += 1;
+        let mut model = Model::new_empty("b", "en", "UTC", "en")?;
+        let steps = b.as_array().cloned().unwrap_or_default();
+        let mut program = vec![];
+        'beh: for (si, st) in steps.iter().enumerate() {
+            let a = &st["a"];
+            let target = a["target"].as_str().unwrap_or("");
+            let style = match style_of_spec(&a["style"]) {
+                Some(s) => s,
+                None => continue,
+            };
+            let r = match target {
+                "cellA1" => model.set_cell_style(0, 1, 1, &style),
+                "cellB2" => model.set_cell_style(0, 2, 2, &style),
+                "row3" => model.set_row_style(0, 3, &style),
+                _ => model.set_column_style(0, 4, &style),
+            };
+            program.push(json!({"target": target, "style": a["style"]}));
+            n_steps += 1;
+            // read back directly and after a binary round trip at the last step
+            let mut views = vec![("direct", read(&model))];
+            if si + 1 == steps.len() {
+                if let Ok(m2) = Model::from_bytes(&model.to_bytes(), "en") {
+                    views.push(("after-reload", read(&m2)));
+                }
+            }
+            for (vname, got) in views {
+                for (name, g) in got {
+                    let want = style_of_spec(&st["expect"][name]);
+                    // a row whose style is the default style is not distinguishable from a row without style
+                    let same = g == want || (want.as_ref() == Some(&ironcalc_base::types::Style::default()) && g.is_none() && (name == "row3"));
+                    if r.is_err() || !same {
+                        let kind = if name == target { "read-back" } else { "aliasing" };
+                        let attr = match (&g, &want) {
+                            (Some(x), Some(y)) => {
+                                if x.num_fmt != y.num_fmt { "num_fmt" } else if x.font != y.font { "font" } else if x.fill != y.fill { "fill" } else if x.border != y.border { "border" } else if x.alignment != y.alignment { "alignment" } else { "quote_prefix" }
+                            }
+                            _ => "presence",
+                        };
+                        writeln!(mism, "{}", json!({"property": "C30", "why": format!("{kind}-{attr}"), "subject": format!("{target}->{name}:{vname}"),
+                            "case": {"program": program, "step": si}, "detail": format!("read {:?} want {:?}", g.map(|x| serde_json::to_value(x).unwrap_or(Value::Null)), want.map(|x| serde_json::to_value(x).unwrap_or(Value::Null)))})).ok();
+                        n_mism += 1;
+                        break 'beh;
+                    }
+                }
+            }
+            nontrivial.insert(format!("{}:{}", target, a["style"]));
+        }
+        if samples.len() < 2 && n_beh % 700 == 3 {
+            samples.push(b.clone());
+        }
+    }
+    mism.flush().ok();
+    Ok(json!({"cases": n_beh, "checks": n_steps * 7, "mismatches": n_mism, "distinct_nontrivial": nontrivial.len(), "samples": samples, "no_verdict": 0}))
+}
